@@ -107,7 +107,8 @@ def resolve_rec(prog, spec):
 
 
 class Entry:
-    def __init__(self, rec, field, lo, hi, why, spec=None, filler=None, init_written=False, table=None):
+    def __init__(self, rec, field, lo, hi, why, spec=None, filler=None, init_written=False, table=None, also=()):
+        self.also = tuple(also)         # sentinel values outside [lo, hi] a writer may store as a constant
         self.table = table              # objects of this record live only in this constant table
         self.rec, self.field, self.lo, self.hi, self.why = rec, field, lo, hi, why
         self.spec = spec or rec
@@ -139,7 +140,7 @@ class Invariants:
                 continue
             self.entries.append(Entry(rec, t["field"], t["lo"], t["hi"], t.get("why", ""), spec=t["rec"],
                                       filler=t.get("filler"), init_written=t.get("init_written", False),
-                                      table=t.get("table")))
+                                      table=t.get("table"), also=t.get("also", ())))
         self.by_key = {(e.rec, e.field): e for e in self.entries}
 
     def install(self):
@@ -201,7 +202,7 @@ class Invariants:
                         run.holds(rule, key, "TRUSTED (not decided by the interval analysis): `%s` computes %s; %s"
                                   % (ex.pretty(f, i)[:60], v, self.exceptions[key]), ex.loc(f, i), nontrivial=False)
                         run.assumptions.append("%s: %s" % (key, self.exceptions[key]))
-                    elif absint.within(v, (ent.lo, ent.hi)):
+                    elif absint.within(v, (ent.lo, ent.hi)) or (v[0] is not None and v[0] == v[1] and v[0] in ent.also):
                         run.holds(rule, key, "`%s` stores %s, inside the declared range [%s, %s] of %s"
                                   % (ex.pretty(f, i)[:70], v, ent.lo, ent.hi, ent.key), ex.loc(f, i),
                                   nontrivial=v[0] != v[1])
